@@ -637,21 +637,22 @@ func (w *c14World) project(routeKind string, r c15Resp, d *c14Desc) J {
 				b := J{"k": "solution", "id": c14S(id), "active": c14MapJ(m), "vars_ok": varsOk,
 					"enc": nil, "summary": nil, "pfm": nil, "valid": nil}
 				for _, a := range attrs {
+					val, _ := a[1].(J) // nil map for a null value
 					switch a[0] {
 					case "Encoding":
-						if s, ok := a[1].(J)["s"]; ok {
+						if s, ok := val["s"]; ok {
 							b["enc"] = s
 						}
 					case "Summary":
-						if s, ok := a[1].(J)["s"]; ok {
+						if s, ok := val["s"]; ok {
 							b["summary"] = s
 						}
 					case "ParetoFrontMember":
-						if s, ok := a[1].(J)["b"]; ok {
+						if s, ok := val["b"]; ok {
 							b["pfm"] = s
 						}
 					case "ValidAgainstScenario":
-						if s, ok := a[1].(J)["b"]; ok {
+						if s, ok := val["b"]; ok {
 							b["valid"] = s
 						}
 					}
@@ -1211,7 +1212,9 @@ func (g *c14Gen) step(e *c14Engine, malformed float64) c14Req {
 }
 
 // routeTriple: the same target set reached from the same prefix by the three write routes, on three engines
-func (g *c14Gen) routeTriple(i int) {
+// reservedPatch != "": the prefix also PATCHes that engine-maintained attribute name (the listed finding of C14: the
+// witness of C14_route_equivalence_full_refuted, replayed on the implementation)
+func (g *c14Gen) routeTriple(i int, reservedPatch string) {
 	p := g.p
 	w := g.w
 	scen := g.scen[p.intn(len(g.scen))]
@@ -1232,6 +1235,9 @@ func (g *c14Gen) routeTriple(i int) {
 	}
 	if p.chance(0.3) {
 		prefix = append(prefix, c14Req{"PATCH", c14Api + "/model", c14Json, `[{"Name":"Summary","Value":"kept"}]`})
+	}
+	if reservedPatch != "" {
+		prefix = append(prefix, c14Req{"PATCH", c14Api + "/model", c14Json, `[{"Name":"` + reservedPatch + `","Value":"X"}]`})
 	}
 	target := g.randomBits(d)
 	routes := [][]c14Req{
@@ -1257,8 +1263,13 @@ func (g *c14Gen) routeTriple(i int) {
 	w.stats["route_triples"]++
 	if bodies[0] != bodies[1] || bodies[0] != bodies[2] {
 		last := routes[1][len(routes[1])-1]
-		w.oracleLine("routes-disagree", last, c15Resp{Status: 200}, J{"route": J{"k": "triple"}},
-			"whole-table PUT, per-subcatchment PUTs and encoding PATCH reach action set "+c14BitKey(target)+" but GET /model differs between them")
+		w.oracle++
+		emit(J{"kind": "oracle", "what": "routes-disagree", "shape": "route triple", "prefix_patch": reservedPatch,
+			"detail": "whole-table PUT, per-subcatchment PUTs and encoding PATCH reach action set " + c14BitKey(target) + " but GET /model differs between them",
+			"method": last.Method, "path": last.Path, "body": c14Short(last.Body), "models": bodies})
+	} else if reservedPatch != "" {
+		// the listed finding no longer reproduces: say so (the refutation witness must be replayed on every run)
+		emit(J{"kind": "note", "what": "listed finding did not reproduce", "prefix_patch": reservedPatch})
 	}
 }
 
@@ -1289,7 +1300,8 @@ func runC14(args []string) {
 		e.finish("walk")
 	}
 	for i := 0; i < ntriple; i++ {
-		g.routeTriple(i)
+		g.routeTriple(i, "")
 	}
+	g.routeTriple(ntriple, "ModelSuppliedPlanningUnitName")
 	w.finish()
 }
